@@ -56,6 +56,9 @@ CHECKS = {
     "C15": ("pbt-values", "generated instances per function family: rounding (exhaustive +-2^16 integers, doubles placed k ulp around half-integers/integers of the TARGET unit) against the exact long-double value with a 4-ulp band; inversion (n=1..1000 exhaustive + round trip + random) against trunc(K/x); trig against long double std:: of exact radians with a stated tolerance; hypot/fmod/remainder/min/max/clamp/abs/isnan/copysign against std:: on common-unit values incl. NaN/inf/signed zeros; negative probes for integral inversions with K < 10^6",
             "Exploration with explicit tolerances for floating point; exhaustive windows for integral reps.",
             "long double oracle; bands and documented exceptions listed in evidence.assumptions", "4/C15"),
+    "C16": ("pbt-programs", "Hypothesis-generated (constant, target unit, type) cases: library constants modelled from the SI exact values and make_constant of generated units with integer/rational/huge-prime/pi magnitudes; static_assert of can_store_value_in and of the converted values against exact ratios / 30-digit bounds, negative probes (with twins) for every conversion form when the ratio is not representable, algebra cases pinning stored number and spelled result unit",
+            "Exploration: grid over the 9 library constants x types plus random generated constants and scale factors straddling each type's limits.",
+            "same floating bands as C11; model of the constants independent of the headers", "4/C16"),
 }
 ENGINES = [
     {"name": "pbt-programs", "path": "auverif/hyp.py", "kind_free_text": "Hypothesis-generated translation units judged by compiler verdict / static_assert / program output against an independent Python model",
